@@ -33,6 +33,7 @@ CHECKS = {
     "json_object_private.h": ["C11", "C10", "C09"],
     "arraylist.h": ["C07"],
     "random_seed.c": ["C18", "C06"],
+    "math_compat.h": ["C10", "C02", "C09"],
 }
 
 SWAPS = [(r"<=", "<"), (r">=", ">"), (r"(?<![<>=!-])<(?![<=])", "<="), (r"(?<![<>=!-])>(?![>=])", ">="), (r"==", "!="), (r"!=", "=="),
@@ -59,7 +60,9 @@ def sites(fname):
         if s.startswith("/*") and "*/" not in s:
             incomment = True
             continue
-        if not s or s.startswith(("#", "//", "/*", "*")) or "MC_" in s or "assert" in s or "printf" in s and "snprintf" not in s:
+        if s.startswith("#define") and "(" in s.split()[1] if len(s.split()) > 1 else False:
+            pass        # function-like macro: its body is code
+        elif not s or s.startswith(("#", "//", "/*", "*")) or "MC_" in s or "assert" in s or "printf" in s and "snprintf" not in s:
             continue
         code = re.sub(r'"(?:[^"\\]|\\.)*"|\'(?:[^\'\\]|\\.)*\'', lambda m: " " * len(m.group(0)), line)
         code = re.sub(r"//.*|/\*.*?\*/", lambda m: " " * len(m.group(0)), code)
